@@ -42,15 +42,19 @@ def URL.str (u : URL) : String :=
 /-- a `*url.URL`: index into the heap; allocation appends -/
 abbrev Ref := Nat
 
-/-- what a downstream handler does to `req.URL` -/
+/-- what a downstream handler does to the `req.URL` object it was handed: rewrite one field, or
+    overwrite the object with an arbitrary value.  `set v` for every `v` covers every function
+    `f : URL → URL` a handler could apply (its effect on the object is `set (f current)`). -/
 inductive Mut where
   | host | path | scheme
+  | set (v : URL)
 deriving Repr, DecidableEq
 
 def Mut.apply : Mut → URL → URL
   | .host, u => { u with host := "evil" }
   | .path, u => { u with path := "/evil" }
   | .scheme, u => { u with scheme := "evil" }
+  | .set v, _ => v
 
 /-- `RoundRobin`: `refs[i]`/`ws[i]` = `servers[i].url`/`.weight`, `it` = (`index`, `currentWeight`) -/
 structure Bal where
